@@ -17,6 +17,7 @@ import MajoranaVerif.Model.Mvp60Fast
 import MajoranaVerif.Model.Mvp60Class
 import MajoranaVerif.Model.Mvp61
 import MajoranaVerif.Model.Mvp62
+import MajoranaVerif.Model.Mvp63
 
 namespace Driver.Run
 
@@ -121,6 +122,27 @@ def m62Suffix (app : Model.Seq.App) (ctx : Model.Context) (spec : Spec.Result) :
     s!" m62p{k}={showHalt r.halt},{cyc},{if same then "same" else "DIFF"},{r.ticks},{hex16 dig}"
   "".intercalate (m62Pars.map one)
 
+/-- which parallelisms of the MVP-6.3 model are evaluated (as `m61Pars`; `VERIF_M63=all|none` overrides) -/
+initialize m63Pars : List Nat ← do
+  let tier ← IO.getEnv "VERIF_TIER"
+  let opt ← IO.getEnv "VERIF_M63"
+  return if tier == some "thorough" || opt == some "all" then [1, 2, 3, 4] else if opt == some "none" then [] else [2]
+
+/-- the cycle-accurate model of MVP-6.3 (`Model.Mvp63`) with eu = wu = 1..4, in the format of `m60Suffix`:
+` m63pK=<halt>,<cycles>,<same|DIFF>,<ticks>,<digest of final registers and memory>`; `<halt>` is `maporder` when the
+model stopped because the Go result depends on map iteration order (MVP-6.3 is not deterministic): no verdict -/
+def m63Suffix (app : Model.Seq.App) (ctx : Model.Context) (spec : Spec.Result) : String :=
+  let fuel := 32 * Gen.Latency.MemoryAccess.toNat * (spec.steps + 64)
+  let one (k : Nat) : String :=
+    let r := Model.Mvp63.run app ctx k k fuel
+    let fr := (List.range 32).map fun j => GoInt.GoMap.get1 r.final.ctx.Registers j
+    let same := fr == spec.final.regs.toList && r.final.ctx.Memory == spec.final.mem.toList
+    let cyc := match r.halt with | some .err => 0 | _ => r.final.cycles
+    let dig := fnvStr (",".intercalate (fr.map showI32) ++ ";" ++ hex16 (fnv64 r.final.ctx.Memory.toArray))
+    let h := if Model.Mvp63.isMapOrder r then "maporder" else showHalt r.halt
+    s!" m63p{k}={h},{cyc},{if same then "same" else "DIFF"},{r.ticks},{hex16 dig}"
+  "".intercalate (m63Pars.map one)
+
 /-- the cycle-accurate models of MVP-1 and MVP-2 on the same case: how the run ends, the cycle count,
 and whether the final registers and memory equal the specification's (`same`/`DIFF`) -/
 def seqModels (progBytes : List UInt8) (regs : Array (BitVec 32)) (mem : Array (BitVec 8)) (fuel : Nat)
@@ -147,7 +169,7 @@ def seqModels (progBytes : List UInt8) (regs : Array (BitVec 32)) (mem : Array (
       let same := fr == spec.final.regs.toList && r.final.ctx.Memory == spec.final.mem.toList
       let cyc := match r.halt with | some .err => 0 | _ => r.final.cycles
       s!"{showHalt r.halt},{cyc},{r.final.executed},{if same then "same" else "DIFF"}"
-    s!"m1={one (Model.Seq.runMvp1 app ⟨ctx, 0⟩ fuel)} m2={one (Model.Seq.runMvp2 app ⟨ctx, 0⟩ fuel)} m3={one (Model.Mvp3.runMvp3 app ⟨ctx, 0⟩ fuel).toSeq} h3={if Model.Mvp3.wfAccesses app ⟨ctx, 0⟩ fuel then 1 else 0} m4={one4 (Model.Mvp4.run app ctx (32 * Gen.Latency.MemoryAccess.toNat * (spec.steps + 64)))} m5={one5 (Model.Mvp5.run app ctx (32 * Gen.Latency.MemoryAccess.toNat * (spec.steps + 64)))}{m60Suffix app ctx spec}{m61Suffix app ctx spec}{m62Suffix app ctx spec}"
+    s!"m1={one (Model.Seq.runMvp1 app ⟨ctx, 0⟩ fuel)} m2={one (Model.Seq.runMvp2 app ⟨ctx, 0⟩ fuel)} m3={one (Model.Mvp3.runMvp3 app ⟨ctx, 0⟩ fuel).toSeq} h3={if Model.Mvp3.wfAccesses app ⟨ctx, 0⟩ fuel then 1 else 0} m4={one4 (Model.Mvp4.run app ctx (32 * Gen.Latency.MemoryAccess.toNat * (spec.steps + 64)))} m5={one5 (Model.Mvp5.run app ctx (32 * Gen.Latency.MemoryAccess.toNat * (spec.steps + 64)))}{m60Suffix app ctx spec}{m61Suffix app ctx spec}{m62Suffix app ctx spec}{m63Suffix app ctx spec}"
 
 /-- `run id ; family=.. fuel=N memsize=M ; regs=r:v,.. ; mem=<hex> ; prog=<hex>` -/
 def run (line : String) : String :=
